@@ -45,7 +45,7 @@ fn bigram_case() -> BoxedStrategy<BigramCase> {
             let lex = assemble_rows(&raw, nl, nr, CostRegime::Medium, "S");
             let mut unk = vec![];
             for c in 0..chardef.cats.len() {
-                let (l, r, cost) = base_unk[c];
+                let (l, r, cost) = base_unk[c % base_unk.len()];
                 unk.push(UnkRow {
                     cat: c,
                     left: (usize::from(l) % nl) as u16,
